@@ -16,7 +16,7 @@ META = {
                    "identified by solver-validated congruence of the function atoms).",
     "bounds": {"quick": "shapes 3x4 (single output), 2x3 points x 2 outputs (multi-output); alphabet of 9 per dim; batch (2,) for two kernels",
                "thorough": "alphabet of 14 per dim incl. out-of-range stops and empty-free steps; batch (2,) and (2,1)x(1,.) broadcast"},
-    "outside": ["empty selections", "more than one batch dimension on the kernel", "KeOps / multi-device kernels", "rounding"],
+    "outside": ["empty selections", "more than two batch dimensions on the kernel", "KeOps / multi-device kernels", "rounding"],
     "assumptions": ["reals for floats", "function atoms uninterpreted with congruence"],
 }
 TIMEOUT_S = {"quick": 600, "thorough": 3000}
@@ -37,6 +37,8 @@ def make_kernel(name, d, bs=()):
         return K.RBFKernel(batch_shape=bsz) * K.PeriodicKernel(batch_shape=bsz), 1
     if name == "multitask":
         return K.MultitaskKernel(K.RBFKernel(), num_tasks=2, rank=1), 2
+    if name == "multitask_linear":  # a data kernel whose diagonal is not constant
+        return K.MultitaskKernel(K.LinearKernel() + K.ConstantKernel(), num_tasks=2, rank=1), 2
     if name == "rbf_grad":
         return K.RBFKernelGrad(), 1 + d
     if name == "poly":
@@ -100,6 +102,48 @@ def indexing(S, kernel, n1, n2, d, batch, alphabet):
                     continue
                 S.prove_eq(got, want if isinstance(want, np.ndarray) else np.array(want, dtype=object).reshape(()), lab)
     S.notes.append("index expressions tested: %d" % ntested)
+
+
+def indexing_batch2(S, kernel):
+    """kernels with TWO parameter batch dimensions: partial batch indices of the lazily evaluated tensor"""
+    bs = (2, 3)
+    k, outs = make_kernel(kernel, 1, bs)
+    for p in k.parameters():
+        p.requires_grad_(False)
+    declare_params(S, k, "p_", scale=0.4)
+    n1, n2 = 2, 3
+    x1 = S.randn(*bs, n1, 1, scale=0.7); S.sym_tensor(x1, "x")
+    x2 = S.randn(*bs, n2, 1, scale=0.7); S.sym_tensor(x2, "z")
+    exprs = [(1,), (slice(None), 2), (0, 1), (1, slice(None), slice(0, 2), slice(1, 3)), (0, Ellipsis, slice(1, 3)),
+             (slice(None), 0, slice(None), 1), (slice(1, 2),), (slice(None), slice(0, 2)), (-1, -1, 0), ([1, 0],),
+             (slice(None), [2, 0]), (1, [0, 2], slice(None), slice(None)), (Ellipsis, 0, 0), (slice(None), slice(None), slice(None), slice(None))]
+    with S.mode():
+        with gpytorch.settings.lazily_evaluate_kernels(False):
+            D = as_sym_arr(SH.get(dense(k(x1, x2)))).copy()
+        ids = torch.arange(int(np.prod(D.shape))).reshape(D.shape)
+        with gpytorch.settings.lazily_evaluate_kernels(True):
+            pc_mark = len(CTX.pc)
+            for e in exprs:
+                del CTX.pc[pc_mark:]
+                idx = tuple(_mk(i) for i in e)
+                lab = "K[%s] (kernel batch 2x3)" % ", ".join(str(i) for i in e)
+                sel = ids[idx if len(idx) > 1 else idx[0]]
+                Lnew = k(x1, x2)
+                try:
+                    got = dense(Lnew[idx if len(idx) > 1 else idx[0]])
+                except Unsupported:
+                    raise
+                except Exception as ex:
+                    where = [f for f in __import__("traceback").extract_tb(ex.__traceback__) if "/gpytorch/" in f.filename or "/linear_operator/" in f.filename]
+                    S.check_concrete(False, lab + " raises", "%r at %s" % (ex, (where[-1].filename.split("/")[-1] + ":%d" % where[-1].lineno) if where else "?"))
+                    continue
+                if not S.check_concrete(tuple(got.shape) == tuple(sel.shape), lab + " shape", "%s vs %s" % (tuple(got.shape), tuple(sel.shape))):
+                    continue
+                S.prove_eq(got, D.reshape(-1)[sel.numpy()], lab)
+            dg = k(x1, x1, diag=True)
+            with gpytorch.settings.lazily_evaluate_kernels(False):
+                D11 = as_sym_arr(SH.get(dense(k(x1, x1)))).copy()
+            S.prove_eq(dg, np.diagonal(D11, axis1=-2, axis2=-1), "diag=True (kernel batch 2x3)")
 
 
 def views(S, kernel, n, d):
@@ -203,11 +247,17 @@ def scenarios(tier, seed):
     for kern in ("rbf", "scale_rq", "rbf+linear", "rbf*periodic", "poly"):
         add("indexing", kernel=kern, n1=3, n2=4, d=2 if kern == "rbf" else 1, batch=0, alphabet=a)
     add("indexing", kernel="multitask", n1=2, n2=3, d=1, batch=0, alphabet=a)
+    add("indexing", kernel="multitask_linear", n1=2, n2=3, d=1, batch=0, alphabet="q")
+    add("indexing_batch2", kernel="rbf")
+    add("indexing_batch2", kernel="scale_rq")
+    if tier != "quick":
+        add("indexing_batch2", kernel="rbf+linear")
+        add("indexing_batch2", kernel="poly")
     add("indexing", kernel="rbf_grad", n1=2, n2=3, d=1, batch=0, alphabet=a)
     add("indexing", kernel="rbf", n1=3, n2=4, d=1, batch=2, alphabet="q")
     add("indexing", kernel="scale_rq", n1=3, n2=4, d=1, batch=2, alphabet="q")
-    for kern in ("rbf", "scale_rq", "multitask", "rbf_grad", "poly"):
-        add("views", kernel=kern, n=2 if kern in ("multitask", "rbf_grad") else 3, d=1)
+    for kern in ("rbf", "scale_rq", "multitask", "multitask_linear", "rbf_grad", "poly"):
+        add("views", kernel=kern, n=2 if kern in ("multitask", "multitask_linear", "rbf_grad") else 3, d=1)
     add("views", kernel="rbf", n=3, d=3)
     for kern in ("rbf", "scale_rq"):
         add("diag_batched", kernel=kern, b=3, n=3, d=2)
